@@ -9,10 +9,12 @@ pub mod verif {
     pub mod graph;
     pub mod hooks;
     pub mod inc_config;
+    pub mod inc_fs;
     pub mod projset;
     pub mod prop;
     pub mod report;
     pub mod sim;
+    pub mod tree;
     pub mod sim_oracles;
     pub mod sim_runner;
 
